@@ -8,6 +8,7 @@ from ..codec import CodecModel, pack_call, unpack_call
 from ..loader import AnalysisError
 from ..sym import (C, NONE, Interp, contains, is_const, iter_events, kind,
                    term_str, walk_term)
+from . import codec_rules as R
 from .codec_rules import P, ret_paths, split_ret, strip_sites
 
 META = {
@@ -228,6 +229,61 @@ def run(ctx):
             ctx.ob('C20.D3', xfi.qualname, 'consumption-guarded', not stores,
                    'queue consumption must depend on the presence of the '
                    'unix_fds header')
+    # D2: the descriptor list reaches every nested decoder/encoder ---------------
+    # (a descriptor argument inside a struct, dict entry or array resolves
+    # its index in the list the message came with - only if every container
+    # codec hands that very list on)
+    n_thread = 0
+    for which, table, driver in (('enc', cm.enc, 'marshal.marshal'),
+                                 ('dec', cm.dec, 'marshal.unmarshal')):
+        dfi = prog.func(driver)
+        funcs = {f.qualname: f for f in table.values()}
+        funcs[driver] = dfi
+        for q, f in sorted(funcs.items()):
+            if 'oobFDs' not in f.params():
+                continue
+            if q == 'marshal.marshal_variant' and _variant_gap(cm):
+                # one named exception: the variant ENCODER does not hand the
+                # list on, so a descriptor inside a variant cannot be sent at
+                # all (marshal_unix_fd raises on the missing list) - nothing
+                # is mis-attributed; reported as an advisory below
+                continue
+            mine = ('param', 'oobFDs')
+            for le in (True,):
+                for p in cm.paths(f, le):
+                    if p.outcome == 'raise':
+                        continue
+                    for c in p.calls():
+                        callee = None
+                        if c[1] == driver:
+                            callee = dfi
+                        elif kind(c[2]) == 'sub' and R._is_table(
+                                c[2][1], cm, which):
+                            callee = 'table'
+                        if callee is None:
+                            continue
+                        if callee == 'table':
+                            # table[code](ct, value/data, pos, lendian, fds)
+                            passed = c[3][4] if len(c[3]) > 4 else \
+                                dict(c[4]).get('oobFDs')
+                        else:
+                            b = dict(zip(dfi.params(), c[3]))
+                            b.update(dict(c[4]))
+                            passed = b.get('oobFDs')
+                        n_thread += 1
+                        ctx.ob('C20.D2', q, 'descriptor-list-handed-on',
+                               passed == mine,
+                               'a nested %s call does not receive the '
+                               'descriptor list of the message (gets %s): a '
+                               'UNIX_FD inside this container is resolved '
+                               'against an empty or foreign list - the '
+                               'declared count is still consumed, the '
+                               'descriptor is lost' % (
+                                   'encode' if which == 'enc' else 'decode',
+                                   term_str(passed)[:40] if passed is not None
+                                   else 'nothing'), nontrivial=False)
+    if n_thread < 6:
+        raise AnalysisError('C20: only %d nested codec calls seen' % n_thread)
     # D4 fresh list ---------------------------------------------------------------
     n = 0
     for f in prog.all_funcs.values():
